@@ -441,6 +441,29 @@ def c28_worker(args):
                     r.violation(f"deserialize_as_tuples tree={b.hex()}", "pure-python fallback differs from the Rust parse_triples")
             except Exception:
                 r.violation(canon, traceback.format_exc()[-600:])
+    elif kind == "boundary":
+        # atoms at every length-prefix boundary, alone and as children, through the pure-python serializer,
+        # Program bytes and the Rust serializer
+        for size in lines:
+            for first in (0x00, 0x7f, 0x80, 0xff):
+                r.evaluations += 1
+                a = bytes([first]) + b"\x33" * (size - 1) if size else b""
+                canon = f"sexp_to_bytes boundary atom len={size} first={first:#x}"
+                try:
+                    for shape in ("atom", "pair"):
+                        node = PyNode(atom=a) if shape == "atom" else PyNode(pair=(PyNode(atom=a), PyNode(atom=b"")))
+                        got = pyser.sexp_to_bytes(node)
+                        lazy = c.clvm_tree_to_lazy_node(node)
+                        rust = bytes(c.ser_legacy(lazy))
+                        if got != rust:
+                            r.violation(canon + " " + shape, f"pure-python serializer prefix {got[:8].hex()} ({len(got)} bytes), rust {rust[:8].hex()} ({len(rust)} bytes)")
+                        elif bytes(Program.to(a if shape == "atom" else (a, b""))) != rust:
+                            r.violation(canon + " " + shape, "bytes(Program) differs from the Rust serializer")
+                        else:
+                            r.nontrivial += 1
+                            r.inc("boundary_equal")
+                except Exception:
+                    r.violation(canon, traceback.format_exc()[-600:])
     elif kind == "bytes":
         for b in lines:
             r.evaluations += 1
@@ -544,6 +567,7 @@ def ref_ser_canon_len(b):
 def run_c28(res):
     lines = open(cases_file("C28")).read().splitlines()
     jobs = [("trees", ch) for ch in chunks(lines, 32)]
+    jobs += [("boundary", [sz]) for sz in (0, 1, 2, 0x3e, 0x3f, 0x40, 0x41, 0x1ffe, 0x1fff, 0x2000, 0x2001, 0xffffe, 0xfffff, 0x100000, 0x100001)]
     # byte strings: all of BYTES(2) plus the structured prefix space
     inputs = [bytes(x) for n in range(0, 3) for x in itertools.product(range(256), repeat=n)] if not QUICK else [bytes(x) for n in range(0, 2) for x in itertools.product(range(256), repeat=n)] + [bytes([a, b]) for a in (0x00, 0x7f, 0x80, 0x81, 0xbf, 0xc0, 0xe0, 0xf0, 0xf8, 0xfc, 0xfe, 0xff) for b in range(256)]
     firsts = [0x81, 0xbf, 0xc0, 0xdf, 0xe0, 0xef, 0xf0, 0xf7, 0xf8, 0xfb, 0xfc, 0xfd, 0xfe]
@@ -579,7 +603,7 @@ def run_c28(res):
     with mp.Pool(16) as pool:
         for d in pool.imap_unordered(c28_worker, jobs):
             res.merge(d)
-    res.rule = (f"sexp_to_bytes and the pure-python deserialize_as_tuples fallback on every tree of TREES(4|5,A6) against the Rust classic serializer / parse_triples; sexp_from_stream on {len(inputs)} byte "
+    res.rule = (f"sexp_to_bytes and the pure-python deserialize_as_tuples fallback on every tree of TREES(4|5,A6) against the Rust classic serializer / parse_triples; sexp_to_bytes and bytes(Program) on atoms at every length-prefix boundary up to 0x100001 bytes (alone and in a pair); sexp_from_stream on {len(inputs)} byte "
                 f"strings (all strings up to 1|2 bytes, every length-prefix class with size bytes over {{00,01,ff}} up to 7 bytes and short/exact/long bodies) against the Rust classic decoder (accept/reject and tree); "
                 f"int_to_bytes / int_from_bytes on every integer in +-{ib} and +-2^k+-d (k<=130) against an independent minimal encoder and (every 8th) the Rust interpreter; curry / uncurry / curry_hash / "
                 f"run-equivalence on {len(mods)} modules x {len(arglists)} argument lists. Non-trivial = compared successes.")
